@@ -1971,7 +1971,7 @@ func (g *EffGraph) registrationInfos() []regInfo {
 				if c, ok := etcV.(*ssa.Const); ok && c.Value != nil && c.Value.Kind() == constant.Bool {
 					hasEtc = constant.BoolVal(c.Value)
 				}
-				_, has := g.eng.contracts[fnKey(body)]
+				_, has := g.eng.contractMap(fnKey(body), body)
 				out = append(out, regInfo{Pkg: body.Pkg.Pkg.Path(), Func: body.Name(), Lua: lname, Arity: int(ar), HasEtc: hasEtc, Loops: countLoops(body), Contract: has})
 			}
 		}
